@@ -57,7 +57,12 @@ struct Worker {
 
 fn spawn_worker(prop: &str) -> Worker {
     let exe = std::env::current_exe().unwrap();
-    let mut child = Command::new(exe)
+    // the worker runs under an address-space cap (4 GiB): a runaway allocation in the code under
+    // test ends that worker (reported as ABORT) instead of exhausting the machine
+    let mut child = Command::new("/bin/sh")
+        .arg("-c")
+        .arg("ulimit -v 4194304 2>/dev/null; exec \"$0\" \"$@\"")
+        .arg(exe)
         .arg("worker")
         .arg(prop)
         .env_clear()
